@@ -1,35 +1,32 @@
 import PsV.Model.CApi
+import PsV.Model.CApiRefine
 import PsV.Generated.C18
 import PsV.Driver.Common
 /-!
-Driver for the C18 correspondence.  Reads the op script enriched with the twin's outcome and prints, per op, what the
-model (`wrapRet` on the generated wrapper table, `step` on the generated life-cycle facts) predicts the C caller sees.
+Driver for the C18 correspondence.  Reads the op script enriched with what the C++ twin did and prints, per op, what the
+model predicts for the C side: it runs the C machine `cstep` (Model/CApiRefine.lean — pointers and ledger from the
+generated life-cycle facts, return codes by `wrapRet` / `guardRet` / `oomRet` on the generated wrapper table) with the
+twin's observation as the semantics of the C++ operation (outcome and object digest afterwards), i.e. exactly the
+definitions `C18_refines` is about.
 
 input lines
-  `SEQ <id> <nh> <nr>`                                           reset: nh handles, nr result slots
-  `OP <kind> <wrapper> <h> <slot> <sel> <nullparam|-> <outcome>` outcome ∈ ok | fail | throw | inv
+  `SEQ <id> <nh> <nr>`                                                      reset: nh handles, nr result slots
+  `OP <kind> <wrapper> <h> <slot> <sel> <nullparam|-> <outcome> <tdg> <oom>`
+        outcome ∈ ok | fail | throw | inv | allocfail     (what the twin did; inv = the call cannot be written in C++;
+                                                            allocfail = readsplinefitstable_mem: `new` itself threw)
+        tdg = digest of the twin object after the call (`null` = no object);  oom = 1: the injected allocation failure hit
+        the wrapper's own first request (before the C++ operation was reached)
   `END`   /   `CHECK`
 output lines
-  `S`  /  `P <ret> valid=<0|1> h=<null|live|dangling>`  /  `E tables=.. ndObjs=.. ndArrays=.. buffers=.. ub=<0|1>`
-  ret ∈ z | nz | ptr | null | val | void | escape | crash | unknown-wrapper
+  `S`  /  `P <ret> valid=<0|1> h=<null|dangling|digest of the object behind the handle> af=<0|1>`
+       /  `E tables=.. ndObjs=.. ndArrays=.. buffers=.. ub=<0|1>`
+  ret ∈ z | nz | ptr | null | val | void | escape | crash | unknown-wrapper;  valid = inside `cDefined`;
+  af = 1: no call of the wrapper can throw (`Wrapper.mayThrow = false`) — the harness must count 0 heap requests
 -/
 namespace PsV.Driver.C18
 open PsV.CApi PsV.Generated.C18 PsV.Driver
 
-def findWrapper (n : String) : Option Wrapper := wrappers.find? (·.name == n)
-
-/-- the call whose outcome the twin reports: the `sel`-th call of the wrapper's principal operation
-    (the last operation that is not a helper; getters count only when nothing else is called) -/
-def principal (w : Wrapper) (sel : Nat) : Option Call :=
-  let cs := w.calls.filter fun c => c.op != .other && c.op != .wrapperFree
-  let cs' := if cs.any (·.op != .getter) then cs.filter (·.op != .getter) else cs
-  match cs'.getLast? with
-  | none => none
-  | some l =>
-    let same := cs'.filter (·.op == l.op)
-    match same[sel]? with
-    | some c => some c
-    | none => some l
+def findWrapper (n : String) : Option Wrapper := lookup wrappers n
 
 def showRet (w : Wrapper) : CRet → String
   | .success => match w.ret with | .pointer => "ptr" | _ => "z"
@@ -39,69 +36,90 @@ def showRet (w : Wrapper) : CRet → String
   | .escapes => "escape"
 
 def parseOutcome : String → Option Outcome
-  | "ok" => some .ok | "fail" => some .fail | "throw" => some .throws | _ => none
+  | "ok" => some .ok | "fail" => some .fail | "throw" => some .throws | "allocfail" => some .throws | _ => none
 
-def predict (w : Wrapper) (sel : Nat) (nullparam outcome : String) : String :=
-  if outcome == "inv" then
-    if w.nullChecked.contains nullparam || w.mustBeNull.contains nullparam then showRet w (guardRet w) else "crash"
+/-- the twin's observation as the semantics of the C++ operation -/
+def mkSem (o : Outcome) (tdg : String) : Sem String Unit String :=
+  { empty := tdg, load := fun _ => if o == .ok then some tdg else none, member := fun _ _ _ => (o, tdg, "") }
+
+abbrev MSt := CSt String String
+
+/-- the call(s) of the C interface an op line stands for -/
+def toCalls (kind : String) (w : Wrapper) (h slot sel : Nat) (nullparam outcome : String) (o : Outcome) (oom : Bool) : List (CCall Unit) :=
+  if outcome == "inv" && nullparam != "table->data" then
+    if kind == "grideval" then (if nullparam == "table" then [.grideval true h slot () false] else [.nullArg w nullparam h])
+    else [.nullArg w nullparam h]
   else
-    match parseOutcome outcome, principal w sel with
-    | some o, some c => if possible c.op o then showRet w (wrapRet w c o) else "impossible-outcome"
-    | _, _ => "bad-input"
+    match kind with
+    | "init" => [.init h (o != .ok)]
+    | "free" => [.free h]
+    | "readfile" => [.readFile h () oom]
+    | "readmem" => [.readMem h () (outcome == "allocfail")]
+    | "grideval" => [.grideval false h slot () oom]
+    | "nddestroy" => [.destroy slot]
+    | "writemem" => if o == .ok && outcome != "inv" then [.writeMem h () oom, .freeBuffer] else [.writeMem h () oom]   -- the caller frees the buffer at once
+    | _ => [.member w h () sel oom]
 
-def toOps (kind : String) (h slot : Nat) (o : Outcome) : List Op :=
-  match kind with
-  | "init" => [.init h o]
-  | "free" => [.free h]
-  | "readfile" => [.readFile h o]
-  | "readmem" => [.readMem h o]
-  | "grideval" => [.grideval h slot o]
-  | "nddestroy" => [.destroy slot]
-  | "writemem" => if o == .ok then [.writeMem h o, .freeBuffer] else [.writeMem h o]   -- the caller frees the buffer at once
-  | _ => [.use h]
+def runCalls (sem : Sem String Unit String) : MSt → List (CCall Unit) → MSt × Bool × Option CRet
+  | s, [] => (s, true, none)
+  | s, e :: es =>
+    let v := cDefined wrappers s e
+    let r := cstep facts wrappers sem s e
+    let rest := runCalls sem r.1 es
+    (rest.1, v && rest.2.1, some r.2.ret)     -- the C-visible result is that of the first call (the wrapper)
 
-def showH : HState → String
-  | .null => "null" | .live => "live" | .dangling => "dangling"
+def showH : HPtr String → String
+  | .null => "null" | .live x => x | .dangling => "dangling"
 
-partial def loop (inp out : IO.FS.Stream) (s : St) : IO Unit := do
+/-- is the twin's outcome one the behaviour classes allow for the wrapper's principal operation? -/
+def outcomePossible (w : Wrapper) (sel : Nat) (o : Outcome) : Bool :=
+  match principal w sel with
+  | some c => possible c.op o
+  | none => o == .ok
+
+partial def loop (inp out : IO.FS.Stream) (s : MSt) : IO Unit := do
   let line ← inp.getLine
   if line.isEmpty then return ()
   match words line with
   | ["SEQ", _, nh, nr] =>
     out.putStrLn "S"
-    loop inp out (St.init (nh.toNat?.getD 0) (nr.toNat?.getD 0))
+    loop inp out (CSt.init (nh.toNat?.getD 0) (nr.toNat?.getD 0))
   | ["CHECK"] =>
-    -- which generated wrapper records fail the decidable check the theorems rest on (diagnosis for the runner)
-    let bad := (wrappers.filter (fun w => !wrapperOk w)).map (·.name)
+    -- which generated wrapper records fail the decidable checks the theorems rest on (diagnosis for the runner)
+    let bad := (wrappers.filter (fun w => !wrapperOk2 w)).map (·.name)
     let fs := facts
     let badFacts := [("initStoresNew", fs.initStoresNew), ("freeDeletesTyped", fs.freeDeletesTyped), ("freeResetsHandle", fs.freeResetsHandle),
       ("readFileFreesOccupied", fs.readFileFreesOccupied), ("readFileStoresNew", fs.readFileStoresNew), ("readMemAllocsOnlyIfNull", fs.readMemAllocsOnlyIfNull),
-      ("gridevalReleasesResult", fs.gridevalReleasesResult), ("destroyDeletesDerived", fs.destroyDeletesDerived),
+      ("gridevalReleasesResult", fs.gridevalReleasesResult), ("gridevalClearsResult", fs.gridevalClearsResult), ("destroyDeletesDerived", fs.destroyDeletesDerived),
       ("writeMemHandsOverBuffer", fs.writeMemHandsOverBuffer)].filter (fun p => !p.2) |>.map (·.1)
     out.putStrLn s!"C wrappers={wrappers.length} bad=[{",".intercalate bad}] badfacts=[{",".intercalate badFacts}]"
     loop inp out s
   | ["END"] =>
     out.putStrLn s!"E tables={s.led.tables} ndObjs={s.led.ndObjs} ndArrays={s.led.ndArrays} buffers={s.led.buffers} ub={if s.ub then 1 else 0}"
     loop inp out s
-  | ["OP", kind, wname, h, slot, sel, nullparam, outcome] =>
+  | ["OP", kind, wname, h, slot, sel, nullparam, outcome, tdg, oom] =>
     let h := h.toNat?.getD 0; let slot := slot.toNat?.getD 0; let sel := sel.toNat?.getD 0
     match findWrapper wname with
-    | none => out.putStrLn "P unknown-wrapper valid=0 h=null"; loop inp out s
+    | none => out.putStrLn "P unknown-wrapper valid=0 h=null af=0"; loop inp out s
     | some w =>
-      let r := predict w sel nullparam outcome
-      -- a guarded NULL argument returns before anything happens; otherwise the ownership model advances
-      let (s', valid) :=
-        if outcome == "inv" then (s, true) else
-        match parseOutcome outcome with
-        | none => (s, false)
-        | some o =>
-          let ops := toOps kind h slot o
-          (run facts s ops, validRun facts s ops)
-      out.putStrLn s!"P {r} valid={if valid then 1 else 0} h={showH (hget s' h)}"
-      loop inp out s'
+      let af := if w.mayThrow then 0 else 1
+      let o := if outcome == "inv" then some Outcome.fail else parseOutcome outcome
+      match o with
+      | none => out.putStrLn s!"P bad-input valid=0 h={showH (hptr s h)} af={af}"; loop inp out s
+      | some o =>
+        if outcome != "inv" && !outcomePossible w sel o then
+          out.putStrLn s!"P impossible-outcome valid=0 h={showH (hptr s h)} af={af}"; loop inp out s
+        else
+          let calls := toCalls kind w h slot sel nullparam outcome o (oom == "1")
+          let (s', valid, ret) := runCalls (mkSem o tdg) s calls
+          let r := match ret with | some r => showRet w r | none => "bad-input"
+          -- a NULL argument the wrapper does not test, a wrapper without a `table->data` test on a handle that owns nothing
+          let r := if valid then r else if outcome == "inv" then "crash" else r
+          out.putStrLn s!"P {r} valid={if valid then 1 else 0} h={showH (hptr s' h)} af={af}"
+          loop inp out s'
   | _ => out.putStrLn "bad-input"; loop inp out s
 
 def run : IO Unit := do
-  loop (← IO.getStdin) (← IO.getStdout) (St.init 0 0)
+  loop (← IO.getStdin) (← IO.getStdout) (CSt.init 0 0)
 
 end PsV.Driver.C18
